@@ -115,6 +115,10 @@ def dispatch(rp, s, op):
         elif op['op'] == 'remove':
             s.control_cb('control', {'cmd': 'remove_pilots',
                                      'arg': {'tmgr': s._tmgr, 'pids': [pname(p) for p in op['pids']]}})
+        elif op['op'] == 'pilot_states':
+            # ONE notification naming several pilots
+            s._base_state_cb('state', {'cmd': 'update', 'arg': [
+                {'type': 'pilot', 'uid': pname(u['pid']), 'state': u['state']} for u in op['ups']]})
         elif op['op'] == 'pilot_state':
             s._base_state_cb('state', {'cmd': 'update', 'arg': [
                 {'type': 'pilot', 'uid': pname(op['pid']), 'state': op['state']}]})
@@ -242,17 +246,19 @@ def run_bulk_states(rp, npil, ntasks, bulk):
     """Backfilling: pilots are added while still launching, tasks arrive and wait; then ONE state notification names several
     pilots (the pilot manager publishes what it collected).  Returns the snapshot afterwards and what was forwarded."""
     s = make_sched(rp, 'bf')
-    dispatch(rp, s, {'op': 'add', 'pids': list(range(npil)), 'cores': [4] * npil, 'stale': 0})
-    for p in range(npil):
-        dispatch(rp, s, {'op': 'pilot_state', 'pid': p, 'state': 'PMGR_LAUNCHING'})
-    dispatch(rp, s, {'op': 'work', 'tasks': [{'uid': u, 'cores': 1, 'pilot': None} for u in range(ntasks)]})
-    del s.rec[:]
-    err = None
-    try:
-        s._base_state_cb('state', {'cmd': 'update', 'arg': [{'type': 'pilot', 'uid': pname(p), 'state': st} for p, st in bulk]})
-    except Exception as e:
-        err = type(e).__name__
-    return snapshot(s, 'bf'), outs_of(rp.states, s.rec), err
+    ops = bulk_ops(npil, ntasks, bulk)
+    res = []
+    for op in ops:
+        outs, err, _ = apply_op(rp, s, 'bf', op)
+        res.append({'outs': outs, 'err': err, 'state': snapshot(s, 'bf')})
+    return res[-1]['state'], res[-1]['outs'], res[-1]['err'], res
+
+
+def bulk_ops(npil, ntasks, bulk):
+    return [{'op': 'add', 'pids': list(range(npil)), 'cores': [4] * npil, 'stale': 0}] + \
+           [{'op': 'pilot_state', 'pid': p, 'state': 'PMGR_LAUNCHING'} for p in range(npil)] + \
+           [{'op': 'work', 'tasks': [{'uid': u, 'cores': 1, 'pilot': None} for u in range(ntasks)]},
+            {'op': 'pilot_states', 'ups': [{'pid': p, 'state': st} for p, st in bulk]}]
 
 
 def bulk_states_part(ctx, rp):
@@ -260,11 +266,14 @@ def bulk_states_part(ctx, rp):
     sts = ['PMGR_ACTIVE_PENDING', 'PMGR_ACTIVE', 'DONE', 'FAILED']
     cfg = bf_cfg(rp)
     n = 0
+    mops, impl = [], []
     for npil in (2, 3):
         for bulk_states in itertools.product(sts, repeat=npil):
             for order in itertools.permutations(range(npil)):
                 bulk = [(p, bulk_states[p]) for p in order]
-                snap, outs, err = run_bulk_states(rp, npil, 3, bulk)
+                snap, outs, err, res = run_bulk_states(rp, npil, 3, bulk)
+                mops.append({'op': 'bf', 'ops': bulk_ops(npil, 3, bulk), 'start': cfg['start'], 'stop': cfg['stop'], 'hwm': cfg['hwm']})
+                impl.append(res)
                 n += 1
                 ctx.case({'bulk_states': bulk}, nontrivial='PMGR_ACTIVE' in bulk_states)
                 room = [pe for pe in snap['pilots'] if pe[1] == 'added' and pe[2] is not None and cfg['start'] <= pe[2] <= cfg['stop'] and pe[4] < pe[5]]
@@ -274,6 +283,12 @@ def bulk_states_part(ctx, rp):
                     ctx.fail('bulk-notification:tasks-wait-although-an-eligible-pilot-has-room',
                              'one notification %s: afterwards tasks %s wait, pilots %s are added, active and below their high-water mark'
                              % (bulk, snap['wait'], [pe[0] for pe in room]), {'kind': 'bf', 'bulk_states': {'npil': npil, 'bulk': bulk}})
+    def canon(r):
+        if not isinstance(r, list): return r
+        return [{'outs': [list(o) for o in x['outs']], 'err': x['err'], 'pids': x['state']['pids'], 'wait': x['state']['wait'],
+                 'early': sorted([list(e) for e in x['state']['early']]), 'pilots': sorted([list(p) for p in x['state']['pilots']])} for x in r]
+    common.compare(ctx, 'tmgrsched', mops, impl, canon=canon,
+                   what='Backfilling, one state notification naming several pilots (model bfPilotStates): forwards, wait pool, pilot table')
     ctx.obligation('Backfilling: one state notification naming several pilots (every combination and order of 2-3 pilots entering / missing / leaving '
                    'the window): no task keeps waiting while an eligible pilot has room (%d notifications)' % n, 'tie', True, '')
 
@@ -549,7 +564,7 @@ def replay(ctx, data):
     if i.get('bulk_states'):
         b = i['bulk_states']
         cfg = bf_cfg(rp)
-        snap, outs, err = run_bulk_states(rp, b['npil'], 3, [tuple(x) for x in b['bulk']])
+        snap, outs, err, _ = run_bulk_states(rp, b['npil'], 3, [tuple(x) for x in b['bulk']])
         room = [pe for pe in snap['pilots'] if pe[1] == 'added' and pe[2] is not None and cfg['start'] <= pe[2] <= cfg['stop'] and pe[4] < pe[5]]
         print(snap, outs, err)
         return not err and not (snap['wait'] and room)
